@@ -47,19 +47,34 @@ def succs (es : List (V × V)) (x : V) : List V := (es.filter (fun e => e.1 == x
 
 def subset (a b : List V) : Bool := a.all (fun x => b.contains x)
 
-/-- the `while !update.is_subset(&result)` loop of `multi_step_taint` / `multi_step_constraint`;
-    `none`: the iteration budget ran out -/
+/-- the closure loop of `multi_step_taint` / `multi_step_constraint` as it was before the repairs 7abcad3: `while
+    !update.is_subset(&result)`, every round re-expands the whole frontier (kept for `closure_repair_same`) -/
 def closeLoop (es : List (V × V)) : Nat → List V → List V → Option (List V)
   | 0, _, _ => none
   | k + 1, update, result =>
     if subset update result then some result
     else closeLoop es k (update.flatMap (succs es)) (result ++ update)
 
+/-- the closure loop as it is now: a work list; a variable is expanded when it is inserted into the result for the first time,
+    and only the successors that are not in the result yet are pushed (`while let Some(source) = work_list.pop() { if
+    result.insert(..) { work_list.extend(sinks.filter(|s| !result.contains(s))) } }`). The real containers are hash sets, so
+    the order in which successors are pushed is not fixed; no theorem depends on it. `none`: the iteration budget ran out -/
+def workLoop (es : List (V × V)) : Nat → List V → List V → Option (List V)
+  | 0, _, _ => none
+  | _ + 1, [], result => some result
+  | k + 1, x :: work, result =>
+    if result.contains x then workLoop es k work result
+    else workLoop es k ((succs es x).filter (fun s => !(x :: result).contains s) ++ work) (x :: result)
+
 /-- `multi_step_taint`: zero or more steps -/
-def multiStepTaint (es : List (V × V)) (fuel : Nat) (x : V) : Option (List V) := closeLoop es fuel [x] []
+def multiStepTaint (es : List (V × V)) (fuel : Nat) (x : V) : Option (List V) := workLoop es fuel [x] []
 
 /-- `multi_step_constraint`: one or more steps -/
-def multiStepCons (es : List (V × V)) (fuel : Nat) (x : V) : Option (List V) := closeLoop es fuel (succs es x) []
+def multiStepCons (es : List (V × V)) (fuel : Nat) (x : V) : Option (List V) := workLoop es fuel (succs es x) []
+
+/-- an iteration budget that the work list never exhausts (`workLoop_terminates`): every iteration pops one entry, and
+    entries are pushed only when a variable is expanded, at most once per edge -/
+def closureFuel (es : List (V × V)) (start : Nat) : Nat := es.length + start + 1
 
 /-! ### side-effect analysis -/
 
